@@ -17,6 +17,7 @@ for src in probe/*.c; do
 done
 # pkg/cgroup is instrumented through an overlay generated from the current files (the repository is not touched)
 mkdir -p "bin/overlay.$$"
-go run ./tools/overlay /repo "bin/overlay.$$" >/dev/null
+# VERIF_ALT_ROOT (tools/trymut.sh only): a scratch tree with a candidate change, mapped over /repo for this build
+go run ./tools/overlay /repo "bin/overlay.$$" "${VERIF_ALT_ROOT:-}" >/dev/null
 go build -overlay "bin/overlay.$$/overlay.json" -tags verif -o "bin/vcheck.tmp.$$" ./cmd/vcheck && mv -f "bin/vcheck.tmp.$$" bin/vcheck
 rm -rf "bin/overlay.$$"
